@@ -20,6 +20,10 @@ CHECKS = {
    text="check_compiler_version executed symbolically from MIR for every version triple (accepted iff major equal and (minor,patch) <= supported, otherwise an error-level report; no pragma => one warning), plus the C03 main/writer harness specialised to error-level reports: every error offered to the writer is displayed at every --level unless allowed, and then the exit status is non-zero; 'No issues found.' only when nothing was displayed.",
    note=TB + "Partial: that the parser/desugarer/lifter actually produce a report for each failure class is outside this check (needs the pipeline); file-system errors are represented by a location-less error report offered to the writer.",
    ref="DESIGN.md §3 C02"),
+ 'C20': dict(
+   text="Cfg::propagate_values and Cfg::propagate_degrees (and the real block/statement/expression rules below them) executed symbolically from MIR on three small SSA IR graphs (straight line, branch with phi, loop with phi cycle; template and function; symbolic literals) with the clock stubbed to arbitrary non-decreasing durations, so the pass at which the 10 s box fires is a solver variable: on every path the function returns normally, no rule runs after the bail-out, and the annotations at return are exactly those present when the clock was read. With the one-step soundness of every rule from any sound state (C06-X/C07-X) every cut point is sound by induction.",
+   note=TB + "The clock stub is the assumption (elapsed() returns any non-decreasing duration). Counterexamples cannot be replayed natively (the clock is not controllable without rewriting source lines); they are reported from the deterministic engine run. Outside: wall-clock behaviour, termination of the un-cut fixpoint, graphs other than the three shapes.",
+   ref="DESIGN.md §3 C20"),
  'C17': dict(
    text="Partial: the real AnalysisRunner (analyze_*, cache_*, take_*, replace_*, report caches, name listing) executed symbolically from MIR with stubbed CFG generation, passes and writer, for every order in which definitions are stored/analysed and every look-up pattern: on each order the written multiset equals one order-independent oracle (each finding of a user-file definition exactly once), so the displayed multiset does not depend on definition order or on which definition looked which other up first.",
    note=TB + "Outside: hash-map iteration orders inside the analysis passes, SSA version naming across runs, order of files on the command line, effects of unrelated extra definitions beyond the bound (2/3 definitions).",
